@@ -144,6 +144,17 @@ def step (st : St) (ws : List String) : St × String :=
   | ["acf", n] => match n.toNat? with
     | some n => (st, s!"acf {showRats (acf st.minVar st.ds.samples n)}\n")
     | none => (st, "bad-op\n")
+  | ["acfrel", n, sc, sh] => match n.toNat?, parseRat sc, parseRat sh with
+    | some n, some sc, some sh =>
+      let xs := st.ds.samples
+      (st, s!"acfrel {showRats (acf st.minVar xs n)} | {showRats (acf st.minVar (xs.map fun x => x * sc + sh) n)}\n")
+    | _, _, _ => (st, "bad-op\n")
+  | ["corr", n] => match n.toNat? with
+    | some n =>
+      -- cmb_dataset_correlogram_print: data_bar_print asserts -1 <= acf <= 1 (release assert)
+      if ((acf st.minVar st.ds.samples n).drop 1).all (fun a => decide (-1 ≤ a) && decide (a ≤ 1)) then (st, "corr ok\n")
+      else (st, "corr fault\n")
+    | none => (st, "bad-op\n")
   | ["ts"] => ({ st with ts := {}, tcp := {} }, "ts\n")
   | "tadd" :: r => match parseRats r with
     | some xs => match taddAll st.initSz st.ts xs with
